@@ -42,7 +42,8 @@ def str2bool(string):
     :param string: the string to convert
     :return: True, if string is yes, true, t or 1. (case-insensitive)
     """
-    return string.lower() in ("yes", "true", "t", "1", "y")
+    # the value may be given in code as a bool (or a number), not as text
+    return str(string).lower() in ("yes", "true", "t", "1", "y")
 
 
 class RepeatedTimer:
